@@ -619,13 +619,15 @@ class Exec:
         ty = ins.ty
         if op == 'load':
             p = self.val(env, ('ptr',), ins.a)
-            n = self.ty.sizeof(ty)
+            rt_ = self.ty.resolve(ty)
+            n = (rt_[1] + 7) // 8 if rt_[0] == 'int' else self.ty.sizeof(ty)      # bytes touched = store size (i56 -> 7), not alloc size
             o, off = self.access(p, n, ins.align, False, ins)
             self.stats['loads'] += 1
             return self.load_val(ty, o, off)
         if op == 'store':
             p = self.val(env, ('ptr',), ins.b)
-            n = self.ty.sizeof(ty)
+            rt_ = self.ty.resolve(ty)
+            n = (rt_[1] + 7) // 8 if rt_[0] == 'int' else self.ty.sizeof(ty)
             o, off = self.access(p, n, ins.align, True, ins)
             if o.kind == 'global':
                 self.global_store_log.add((o.name, bool(ins.x), self.in_once > 0))
